@@ -1,5 +1,3 @@
-//go:build wip_c12
-
 package props
 
 import (
@@ -467,14 +465,27 @@ func c12ReportPair(c *kit.Ctx, r *kit.Rule, p *c12Pair, codecs map[types.Object]
 		o := r.Ob(v.Site, node, fmt.Sprintf("field %s.%s via pb.%s", p.G.Obj().Name(), v.Field.Name(), p.M.Obj().Name()),
 			"the field is the only source of exactly one message field, is read back from that field, and the two transforms are inverse")
 		switch {
+		case len(probs) > 0:
+			// an unreliable map must not produce a violation
+			o.Undecided("field map extraction: %s", strings.Join(c12Uniq(probs), "; "))
 		case v.Status == "violation":
 			o.Violation("%s", v.Msg)
-		case len(probs) > 0:
-			o.Undecided("field map extraction: %s", strings.Join(probs, "; "))
 		case v.Status == "ok":
 			o.OK("%s", v.By)
 		default:
 			o.Undecided("%s", v.Msg)
 		}
 	}
+}
+
+func c12Uniq(in []string) []string {
+	seen := map[string]bool{}
+	var out []string
+	for _, s := range in {
+		if !seen[s] {
+			seen[s] = true
+			out = append(out, s)
+		}
+	}
+	return out
 }
